@@ -124,6 +124,12 @@ def corruptions(tier):
         for i, l in enumerate(L):
             if i % 3 == 0:
                 yield ("extra-end", f"{label}@{i}", "\n".join(L[:i] + ["end"] + L[i:]) + "\n")
+    # an END outside of any program unit, next to complete units: nothing of such a file may be documented
+    A_, B_ = rename(LIB), rename(MAIN, "yy")
+    yield ("stray-end-file-level", "before-unit", "end\n" + A_)
+    yield ("stray-end-file-level", "after-unit", A_ + "end\n")
+    yield ("stray-end-file-level", "between-units", A_ + "end module\n" + B_)
+    yield ("stray-end-file-level", "before-unit-named", "end subroutine nowhere\n" + B_)
     X, Y = stmts(rename(LIB)), stmts(rename(MAIN, "yy"))
     step = 1
     for i in range(1, len(X), step):
@@ -182,7 +188,7 @@ def _alarm(signum, frame):
     raise Timeout()
 
 
-def guarded_build(files, order=None):
+def guarded_build(files, order=None, **extra_opts):
     # the watchdog counts the CPU time of this process (a runaway regex burns CPU), so that a loaded machine cannot
     # turn a slow but finite run into a reported hang; a generous wall-clock limit backs it up
     old_v = signal.signal(signal.SIGVTALRM, _alarm)
@@ -193,7 +199,7 @@ def guarded_build(files, order=None):
     try:
         if order:
             fordrun.FILE_ORDER = lambda fl: sorted(fl, key=lambda p: order.index("src/" + p.name))
-        r = fordrun.build_fast(files, dict(display=["public", "private", "protected"], proc_internals=True))
+        r = fordrun.build_fast(files, dict(display=["public", "private", "protected"], proc_internals=True, **extra_opts))
         return r, time.time() - t, False
     except Timeout:
         return None, time.time() - t, True
@@ -279,6 +285,10 @@ def run_case(st: Stats, case):
         if got[2] != base[2]:
             bad += 1
             st.violation("project-lists-changed", stratum, dict(feats, accepted=accepted), inp, got[2], base[2])
+    if accepted and kind == "stray-end-file-level":
+        bad += 1
+        st.violation("unbalanced-file-accepted", stratum, feats, inp, sorted((c, e.name) for c in ("modules", "procedures", "programs", "types") for e in getattr(r.project, c, []) if e.filename == name),
+                     "a file with an END outside of any program unit is rejected")
     if accepted and kind in ("extra-end", "delete-end") and name not in r.log:
         # one END too many / too few: the file cannot be right; FORD may recover from it, but never without naming the file in a diagnostic
         bad += 1
@@ -298,15 +308,71 @@ def run_case(st: Stats, case):
         st.sample(dict(kind=kind, detail=detail, position=pos, accepted=accepted, text=shown[:400], diagnostic=r.log[-200:]))
 
 
+# ---- projects that use INCLUDE with a configured include directory --------------------------------------------------
+INC_BASE = {
+    "src/m_solver.f90": "module m_solver\n  implicit none\n  include 'params.inc'\n  include 'limits.h'\ncontains\n  subroutine solve()\n    include 'locals.inc'\n  end subroutine solve\nend module m_solver\n",
+    "inc/params.inc": "integer, parameter :: nmax = 10\n!! the right nmax\n",
+    "inc/locals.inc": "integer :: work_right\n",
+    # what a rejected file may leave behind must not matter: same-named include files next to the bad file
+    "src/attic/params.inc": "integer, parameter :: nmax_legacy = 99\ninteger :: legacy_flag\n",
+    "src/attic/locals.inc": "integer :: work_legacy\n",
+    "src/attic/limits.h": "integer :: only_in_attic\n",
+}
+_INC_BASELINE = {}
+
+
+def run_include_case(st: Stats, case):
+    _, kind, detail, text = case
+    name = "a_bad.f90"
+    files = dict(INC_BASE)
+    opts = dict(include=["inc"])
+    if "b" not in _INC_BASELINE:
+        r0, _, _ = guarded_build(files, **opts)
+        assert r0 is not None and r0.error is None, (r0 and r0.error, r0 and r0.log)
+        _INC_BASELINE["b"] = observe(r0.project, "<none>")
+    base = _INC_BASELINE["b"]
+    files[f"src/attic/{name}"] = text
+    r, dt, hung = guarded_build(files, **opts)
+    st.evaluations += 1
+    st.transitions += 1
+    stratum = f"include-dirs/{kind}"
+    shown = text if isinstance(text, str) else repr(text)
+    inp = dict(kind=kind, detail=detail, position="first", bad_file="attic/" + name, text=shown[:3000], include_case=True)
+    feats = dict(kind=kind, detail=detail if kind == "grammar" else detail.split("@")[0].split("[")[0], position="include-dirs")
+    st.nontrivial.add(core.digest(["inc", kind, detail]))
+    if hung or r is None:
+        st.violation("hang", stratum, feats, inp, f"no result after {WATCHDOG_S}s of CPU time", "terminates")
+        st.stratum(stratum, 1)
+        return
+    if r.error is not None:
+        st.violation("run-aborted", stratum, dict(feats, error_class=type(r.error).__name__, message=str(r.error)[:60]), inp, repr(r.error)[:300], "the file is skipped, the run completes")
+        st.stratum(stratum, 1)
+        return
+    got = observe(r.project, name)
+    d = canon.diff(got[0], base[0]) + canon.diff(base[0], got[0])
+    if d:
+        what, key, det = d[0]
+        st.violation("other-files-tree-changed", stratum, dict(feats, accepted=any(f.name == name for f in r.project.files), diff=what), inp,
+                     dict(diff=what, key=list(key), detail=det), "tree of the valid files as without the extra file")
+        st.stratum(stratum, 1)
+    else:
+        st.stratum(stratum, 0)
+
+
 def work(chunk):
     st = Stats()
     for case in chunk:
-        run_case(st, case)
+        if case[0] == "include":
+            run_include_case(st, case)
+        else:
+            run_case(st, case)
     return st
 
 
 def gen_cases(tier):
     for kind, detail, text in corruptions(tier):
+        if kind in ("truncate", "grammar", "delete-end", "extra-end", "stray-end-file-level") and (tier == "thorough" or kind != "truncate" or int(detail.split("@")[1]) % 3 == 0):
+            yield ("include", kind, detail, text)
         positions = ("first", "between", "last")
         for pos in positions:
             yield (kind, detail, text, pos)
@@ -319,7 +385,16 @@ def replay(path):
     rec = json.loads(open(path).read())
     want = (rec["input"]["kind"], rec["input"]["detail"], rec["input"]["position"])
     for case in gen_cases("thorough"):
-        if (case[0], case[1], case[3]) == want:
+        if rec["input"].get("include_case"):
+            if case[0] != "include" or (case[1], case[2]) != want[:2]:
+                continue
+            st = Stats()
+            run_include_case(st, case)
+            print(rec["input"]["text"])
+            for v in st.violations:
+                print("REPRODUCED", v["clause"], v["observed"])
+            return 1 if st.violations else 0
+        if case[0] != "include" and (case[0], case[1], case[3]) == want:
             st = Stats()
             run_case(st, case)
             print(rec["input"]["text"])
